@@ -361,6 +361,7 @@ def mon_C08(h):
 
 def mon_C02(h):
     bad = []
+    pre_ids = {p["id"] for p in (h.get("pre") or [])}     # jobs of an earlier process: their tasks ran there
     prev = EMPTY
     began = {}       # (job, task) -> count of real begins
     ended_ok = {}    # (job, task) -> True if ended ok / fail-allowed
@@ -393,7 +394,7 @@ def mon_C02(h):
             if j["lasterr"] == "graph":
                 if j["sched"] or j["start"] or not j["canceled"]:
                     bad.append((k, "job %d with an unbuildable graph is not simply reported canceled" % j["id"]))
-            if j["completed"] and not j["canceled"] and j["lasterr"] == "none":
+            if j["completed"] and not j["canceled"] and j["lasterr"] == "none" and j["id"] not in pre_ids:
                 for t in j["tasks"]:
                     if began.get((j["id"], t["name"]), 0) != 1:
                         bad.append((k, "job %d reported successful but task %d executed %d times" % (j["id"], t["name"], began.get((j["id"], t["name"]), 0))))
